@@ -1,4 +1,4 @@
-import TornadoModel.C06.Refine
+import TornadoModel.C06.Roundtrip
 /-!
 C06 — property theorems: HTTP header maps behave as a case-insensitive insertion-ordered multimap.
 Only property theorems and non-vacuity examples live here; helper lemmas are in `Lemmas`, `Norm`, `Refine`.
@@ -53,10 +53,52 @@ theorem deleted_absent (ops : List Op) (n : Str) (h' : Headers) :
     simp [contains, dhas, dget_ddel_same]
   · cases hd
 
+/-- **Copy**: in every reachable state whose names/values are ones `add` accepts (they always are unless
+    `__setitem__` stored something `add` would reject), the copy constructor succeeds and yields a map with
+    exactly the same entries, in the same order.  (Independence of the two objects is an aliasing question the
+    immutable model cannot express; it is decided by the correspondence stream.) -/
+theorem copy_equal (ops : List Op) (hv : Valid (run empty ops).1.asList) :
+    ∃ c, copy (run empty ops).1 = .ok c ∧ c.asList = (run empty ops).1.asList := by
+  have r := (run_refines R_empty ops).2
+  have w := WF_run WF_empty ops
+  obtain ⟨c, h1, h2⟩ := copy_fold (run empty ops).1.asList empty r.normed w.nodup w.nonempty hv
+    (by simp [empty, dkeys])
+  exact ⟨c, h1, by simpa [empty] using h2⟩
+
+theorem validPairs_getAll (l : List (Str × List Str)) (hv : Valid l) :
+    ValidPairs (l.flatMap (fun (k, vs) => vs.map (fun v => (k, v)))) := by
+  intro p hp
+  simp only [List.mem_flatMap, List.mem_map] at hp
+  obtain ⟨e, he, v, hvm, rfl⟩ := hp
+  exact ⟨(hv e he).1, (hv e he).2 v hvm⟩
+
+/-- **Serialise-then-parse round trip**: in every reachable state holding only valid names and values,
+    `HTTPHeaders.parse(str(h))` succeeds and has exactly the entries of `h`, in the same order. -/
+theorem parse_str_roundtrip (ops : List Op) (hv : Valid (run empty ops).1.asList) :
+    ∃ p, parse (toStr (run empty ops).1) = .ok p ∧ p.asList = (run empty ops).1.asList := by
+  obtain ⟨c, h1, h2⟩ := copy_equal ops hv
+  refine ⟨c, ?_, h2⟩
+  have hvp : ValidPairs (getAll (run empty ops).1) := validPairs_getAll _ hv
+  have hs : toStr (run empty ops).1 = (getAll (run empty ops).1).flatMap lineOf := rfl
+  unfold parse
+  rw [hs, splitKeepLf_lines _ hvp]
+  have := parse_fold _ hvp empty
+  rw [show (fun acc l => parseLine acc l true) = (fun a l => parseLine a l) from rfl, this]
+  exact h1
+
 /-! non-vacuity: a reachable state with a multi-valued header whose cache entry was dropped -/
 example :
     let ops := [Op.add [65] [49], Op.get [65], Op.add [97] [50]]
     contains (run empty ops).1 [65] = true ∧ (run empty ops).1.cache = [] ∧
       (step (run empty ops).1 (.del [65])).2 = .unit := by decide
+
+/-! non-vacuity of `Valid`: a reachable multi-valued, multi-name state satisfies it -/
+example : Valid (run empty [Op.add [65] [49], Op.add [97] [50], Op.set [66, 45, 99] [51, 32, 52]]).1.asList := by
+  intro e he
+  have : (run empty [Op.add [65] [49], Op.add [97] [50], Op.set [66, 45, 99] [51, 32, 52]]).1.asList
+      = [([65], [[49], [50]]), ([66, 45, 67], [[51, 32, 52]])] := by decide
+  rw [this] at he
+  simp at he
+  rcases he with rfl | rfl <;> decide
 
 end TornadoModel.C06
